@@ -416,6 +416,9 @@ func c14RaceMain(args []string) int {
 		"Backends have comments and downtimes on hosts and services (every other scenario: changing), every update menu has full reloads (rebuild, core restart), "+
 		"two clients ask for the comment/downtime lists (own, referenced, by-group): each distinct (served, must, may) is kept (violations first, 250). "+
 		"Requests reported by the lock coverage matrix (none when its obligation holds) are sent by two more clients. "+
+		"Every third scenario: three clients send pairs of identical WaitTrigger/WaitObject/WaitCondition requests, the check result that meets the condition arrives "+
+		"during the wait, the update menu reloads the objects (rebuild, restart) without backend failures; each wait is kept as [elapsed, timeout, margin, threshold, "+
+		"served version] (100 ms steps). "+
 		"non-trivial: at least 50 answers checked and at least one update of each peer ran concurrently; distinct by scenario")
 	scenarios := []*c14Scenario{}
 	if sf.replay != "" {
